@@ -9,6 +9,8 @@ import Mps.Drv.Pool
 import Mps.Drv.Paillier
 import Mps.Drv.Sig
 import Mps.Drv.Nonce
+import Mps.Drv.OT
+import Mps.Drv.ZK
 /-
   mpsdriver: reads the harness' JSON lines on stdin, answers one line per operation with what
   the MODEL says: {"id":N,"model":{...}}. Core-only (no Mathlib below this file).
@@ -29,24 +31,49 @@ def dispatch (st : DState) (suite op : String) (inp : Json) : DState × Json :=
   | "paillier" => (st, Mps.Drv.Paillier.handle op inp)
   | "sig" => (st, Mps.Drv.Sig.handle op inp)
   | "nonce" => (st, Mps.Drv.Nonce.handle op inp)
+  | "ot" => (st, Mps.Drv.OT.handle op inp)
+  | "zk" => (st, Mps.Drv.ZK.handle op inp)
   | "session" => (st, Mps.Drv.Session.handle op inp)
   | "handler" | "handlerconc" => let (h, j) := Mps.Drv.Handler.handle st.handler op inp; ({ st with handler := h }, j)
   | _ => (st, jobj [("error", "unknown suite")])
 
-partial def loop (hin : IO.FS.Stream) (hout : IO.FS.Stream) (st : DState) : IO Unit := do
+def statelessSuites : List String :=
+  ["zk", "frame", "session", "sig", "nonce", "alg", "algfind", "paillier", "ot", "pool",
+   "sess-keygen", "sess-sign", "sess-refresh", "sess-derive", "sess-tamper"]
+
+def flush (hout : IO.FS.Stream) (pending : Array (Task String)) : IO Unit := do
+  for t in pending do
+    hout.putStrLn t.get
+
+partial def loop (hin : IO.FS.Stream) (hout : IO.FS.Stream) (st : DState) (pending : Array (Task String)) : IO Unit := do
   let line ← hin.getLine
-  if line.isEmpty then return ()
+  if line.isEmpty then
+    flush hout pending
+    return ()
   match Json.parse line with
   | .error e =>
+    flush hout pending
     hout.putStrLn (jobj [("id", (0 : Nat)), ("error", e)]).compress
-    loop hin hout st
+    loop hin hout st #[]
   | .ok j =>
     let id := jget j "id"
-    let (st', out) := dispatch st (jstr j "suite") (jstr j "op") (jget j "in")
-    hout.putStrLn (Json.mkObj [("id", id), ("model", out)]).compress
-    loop hin hout st'
+    let suite := jstr j "suite"
+    if statelessSuites.contains suite then
+      let t := Task.spawn fun _ =>
+        (Json.mkObj [("id", id), ("model", (dispatch {} suite (jstr j "op") (jget j "in")).2)]).compress
+      let pending := pending.push t
+      if pending.size ≥ 512 then
+        flush hout pending
+        loop hin hout st #[]
+      else
+        loop hin hout st pending
+    else
+      flush hout pending
+      let (st', out) := dispatch st suite (jstr j "op") (jget j "in")
+      hout.putStrLn (Json.mkObj [("id", id), ("model", out)]).compress
+      loop hin hout st' #[]
 
 def main : IO Unit := do
   let hin ← IO.getStdin
   let hout ← IO.getStdout
-  loop hin hout {}
+  loop hin hout {} #[]
